@@ -632,7 +632,7 @@ func TestVerifC05(t *testing.T) {
 	}
 	m.Name = fmt.Sprintf("own-%d", vk.Shard())
 	observeMaster(rep, m)
-	cases := boundaryCases(m, r, vk.N(1536, 24000))
+	cases := boundaryCases(m, r, vk.N(6144, 48000))
 	runCases(rep, m, cases, dir)
 
 	// 2. thorough: every byte offset of one small database, shared by all children
